@@ -259,6 +259,8 @@ def normalise(tree: ast.AST, rel: str, src: Optional[str] = None) -> int:
             continue
         n_canon = 0
         try:
+            ref_nested = {n.name for n in ast.walk(ast.parse(rsrc)) if isinstance(n, ast.FunctionDef)} if rsrc else set()
+            n_canon += canon.inline_local_functions(fn, keep=ref_nested)
             n_canon += canon.drop_redundant_rebindings(fn)
         except Exception:
             if debug:
